@@ -66,9 +66,11 @@ CLAIMS["C15"] = {
     "text": "For every chain of 0..=4 cells with symbolic payloads, 7 tail kinds and every usize index the solver "
             "decides list_iter / Cons::iter / get / Index / to_ref_vec / is_list / is_dotted_list and alist lookup by "
             "name (0..=3 entries, duplicate keys, non-pair entries, key kinds) against a Vec model; non-list targets of "
-            "every kind never panic.",
-    "note": "Chains longer than 4 cells, Value::append/list, the consuming iterator and the cloning conversions are "
-            "outside (CBMC runs out of memory on drop/clone glue of Value; measured). Trusted: Kani/CBMC.",
+            "every kind never panic. E2: alist lookup by value / name on an abstract cell; Value::append / list build the "
+            "documented chain (start at the head cell, one cell per element, given tail as the last cdr, tail itself for no "
+            "elements) for any number of elements.",
+    "note": "E1 chains longer than 4 cells, the consuming iterator and the cloning conversions are "
+            "outside (CBMC runs out of memory on drop/clone glue of Value; measured). Trusted: Kani/CBMC, z3.",
 }
 
 CLAIMS["C03"] = {
@@ -108,7 +110,8 @@ CLAIMS["C07"] = {
             "output stops at the first failing write and the error is returned, and that the leaf methods emit exactly "
             "the documented text for all arguments and all 576 option sets (default formatter == customised formatter "
             "with default options follows from both matching the same spelling table); Kani prints integers, booleans, "
-            "nil, null, symbols and keywords into a sink that accepts 0..=3 bytes per call or fails at any offset.",
+            "nil, null, symbols and keywords into a sink that accepts 0..=3 bytes per call or fails at any offset. "
+            "to_writer / to_writer_custom put the printer directly on the caller's sink and return Err iff printing failed.",
     "note": "E2 abstracts the writer to 'each write_all succeeds or fails'; that write_all itself delivers all bytes "
             "to a short-writing sink is std's contract (restated in the Kani sink). Whole compound values end to end "
             "(strings longer than the Kani bounds, nested lists) are covered structurally (loop-cut claims), not by runs.",
@@ -135,9 +138,10 @@ CLAIMS["C14"] = {
     "text": "For 26 deserializer methods x 11 value kinds x 3 number representations the solver decides which visitor "
             "method is called (vector or list for sequences and tuples, empty list or alist for maps/structs, symbol or "
             "pair for enums, empty/one-element list for options) and that every other kind is rejected with a data "
-            "error; list/map access rejects improper tails and non-pair entries; scalar serializer leaves as C04.",
-    "note": "Shapes PRODUCED by the Serialize*::end collectors (proper lists, vectors, alists, (name . payload)) are not "
-            "decided (Value-tree construction is outside the engines); only the acceptance side and scalar shapes are.",
+            "error; list/map access rejects improper tails and non-pair entries; scalar serializer leaves as C04. "
+            "Serializer shapes: every structural method and collector builds exactly the documented term (c14_ser_shapes).",
+    "note": "Serializer shapes are decided over stubbed Value constructors (Value::list / cons / symbol as term builders); "
+            "that Value::append / list build the chain is C15's claim.",
 }
 CLAIMS["C18"] = {
     "engine": "E2-mirsym",
@@ -171,9 +175,11 @@ CLAIMS["C02"] = {
     "text": "The customised formatter emits the documented spelling under every option set (nil x4, bool x2, keyword x3, "
             "vector x2, bytes x3, char x2, string escapes x2); parse_token reads each of these spellings as the "
             "corresponding token exactly under the compatible parser options (c08_token_dispatch); Emacs string "
-            "escapes, ?c characters and octal unibyte strings are read back as emitted.",
+            "escapes, ?c characters and octal unibyte strings are read back as emitted; digit accumulators of octal / "
+            "\\u / #\\x escapes; Emacs byte strings print one \\ooo per octet; both Emacs string scanners decide bytes vs string "
+            "by one specification; option builders / presets are the documented ones.",
     "note": "As C01: piecewise and composed through the spec tables; the documented nil/t/empty-bytes folding is part of "
-            "the spec. Elisp string scanning as a whole (multibyte/unibyte decision over a full string) is only covered per escape.",
+            "the spec.",
 }
 CLAIMS["C06"] = {
     "engine": "E2-mirsym + E1-kani",
